@@ -61,6 +61,7 @@ void generate(sim::Rng &r, uint64_t seed, const std::string &tier, sim::Plan &p)
   } else {
     p.cfg["run_ms"] = r.pick((const long[]){0, 1, 15, 40, 40, 120, 700});
     p.cfg["exit_wait"] = r.below(2);
+    if (part == 2) p.cfg["cycles"] = r.chance(400) ? r.range(2, 3) : 1;
     sim::draw_sched(seed, p);
   }
 }
@@ -343,70 +344,78 @@ void execute_main(const sim::Plan &plan, long part) {
   char **argv = const_cast<char **>(argv_c);
   int argc = 5;
 
-  // reference: what the frame work must do with the tree
-  std::set<int> all; for (size_t i = 0; i < g_spec.size(); ++i) all.insert((int)i);
-  std::vector<int> att_i, att_s; std::set<int> suc_i, suc_s, up_s;
-  bool ok_i = expect_pass(0, true, all, att_i, suc_i) || !g_spec[0].required;     // the framework's own root holds node 0 as a child
-  bool ok_s = false;
+  // Start()/Stop() can be used again after a full cycle: every cycle builds a fresh tree (RegisterApps) and is judged on its own
+  long cycles = part == 2 ? std::max(1L, std::min(3L, plan.get("cycles", 1))) : 1;
+  for (long cyc = 0; cyc < cycles && sim::violation_count() == 0; ++cyc) {
+    g_trace.clear();
+    g_ticks.assign(g_spec.size(), 0);
+    g_timers.assign(g_spec.size(), nullptr);
+    if (cyc > 0) sim::probe("start_stop_cycles_after_the_first");
+    // reference: what the frame work must do with the tree
+    std::set<int> all; for (size_t i = 0; i < g_spec.size(); ++i) all.insert((int)i);
+    std::vector<int> att_i, att_s; std::set<int> suc_i, suc_s, up_s;
+    bool ok_i = expect_pass(0, true, all, att_i, suc_i) || !g_spec[0].required;     // the framework's own root holds node 0 as a child
+    bool ok_s = false;
 
-  int64_t t_begin = sim::now_ms();
-  bool started = false;
-  if (part == 1) {
-    std::thread driver([run_ms] {
-      sim::name_thread("driver");
-      sim::sleep_ns(run_ms * 1000000LL + 500000);
-      sim::trace("driver raises SIGINT");
-      { sim::NoSched ns; raise(SIGINT); }
-    });
-    int rc = tbox::main::Main(argc, argv);
-    if (rc != 0) sim::violation("C11/main-result", sim::fmt("Main() returned %d", rc));
-    driver.join();
-  } else {
-    started = tbox::main::Start(argc, argv);
-    if (started) {
-      sim::sleep_ns(run_ms * 1000000LL + 500000);
-      tbox::main::Stop();
+    int64_t t_begin = sim::now_ms();
+    bool started = false;
+    if (part == 1) {
+      std::thread driver([run_ms] {
+        sim::name_thread("driver");
+        sim::sleep_ns(run_ms * 1000000LL + 500000);
+        sim::trace("driver raises SIGINT");
+        { sim::NoSched ns; raise(SIGINT); }
+      });
+      int rc = tbox::main::Main(argc, argv);
+      if (rc != 0) sim::violation("C11/main-result", sim::fmt("Main() returned %d", rc));
+      driver.join();
+    } else {
+      started = tbox::main::Start(argc, argv);
+      if (started) {
+        sim::sleep_ns(run_ms * 1000000LL + 500000);
+        tbox::main::Stop();
+      }
     }
-  }
-  int64_t t_end = sim::now_ms();
-  (void)t_begin; (void)t_end;
+    int64_t t_end = sim::now_ms();
+    (void)t_begin; (void)t_end;
 
-  // ---------------------------------------------------------------- oracle over the recorded hooks
-  Oracle O;
-  size_t pos = 0;
-  auto take = [&](int hook) { std::vector<int> v; while (pos < g_trace.size() && g_trace[pos].hook == hook) v.push_back(g_trace[pos++].node); return v; };
-  // phase 1: initialise (a failing required child makes the pass roll back: cleanups may be interleaved there)
-  std::vector<int> got_i; size_t init_end = 0;
-  for (size_t i = 0; i < g_trace.size(); ++i) if (g_trace[i].hook == K_INIT) { got_i.push_back(g_trace[i].node); init_end = i + 1; }
-  if (got_i != att_i) sim::violation("C11/init-set", sim::fmt("Main: onInit was attempted on %zu modules, the pre-order walk with early return on a failing required child attempts %zu", got_i.size(), att_i.size()));
-  std::vector<int> got_s; for (const Ev &e : g_trace) if (e.hook == K_START) got_s.push_back(e.node);
-  if (ok_i) {
-    // eligible for start: initialised and not rolled back by the time the start pass begins
-    std::set<int> elig;
-    for (const Ev &e : g_trace) { if (e.hook == K_START) break; if (e.hook == K_INIT && e.ok) elig.insert(e.node); else if (e.hook == K_CLEANUP) elig.erase(e.node); }
-    ok_s = expect_pass(0, false, elig, att_s, suc_s) || !g_spec[0].required;
-    up_pass(0, false, elig, up_s);
-  }
-  if (sim::violation_count() == 0 && got_s != att_s) sim::violation("C11/start-set", sim::fmt("Main: onStart was attempted on %zu modules, expected %zu (initialise %s)", got_s.size(), att_s.size(), ok_i ? "succeeded" : "failed"));
-  (void)take; (void)init_end;
-  if (part == 2 && sim::violation_count() == 0 && started != (ok_i && ok_s)) sim::violation("C11/start-result", sim::fmt("Start() returned %d, the tree's initialise/start %s", (int)started, (ok_i && ok_s) ? "succeed" : "fail"));
-  if (sim::violation_count() == 0) {
-    O.check_reverse_order(0, "Main");
-    O.account(0, "Main");
-    O.expect_balanced_none("after the framework has shut down and destroyed the tree");
-  }
-  if (sim::violation_count() == 0 && ok_i && ok_s) {
-    // the tree ran.  Which thread serves which hook and whether the loop is still running during the final stop pass are
-    // not part of the property: counted, not judged.
-    for (const Ev &e : g_trace) {
-      if (e.hook == K_STOP && up_s.count(e.node)) sim::probe(e.loop_running ? "final_stop_inside_loop" : "final_stop_outside_loop");
-      if (e.tid != 0) sim::probe("hooks_off_the_calling_thread");
+    // ---------------------------------------------------------------- oracle over the recorded hooks
+    Oracle O;
+    size_t pos = 0;
+    auto take = [&](int hook) { std::vector<int> v; while (pos < g_trace.size() && g_trace[pos].hook == hook) v.push_back(g_trace[pos++].node); return v; };
+    // phase 1: initialise (a failing required child makes the pass roll back: cleanups may be interleaved there)
+    std::vector<int> got_i; size_t init_end = 0;
+    for (size_t i = 0; i < g_trace.size(); ++i) if (g_trace[i].hook == K_INIT) { got_i.push_back(g_trace[i].node); init_end = i + 1; }
+    if (got_i != att_i) sim::violation("C11/init-set", sim::fmt("Main: onInit was attempted on %zu modules, the pre-order walk with early return on a failing required child attempts %zu", got_i.size(), att_i.size()));
+    std::vector<int> got_s; for (const Ev &e : g_trace) if (e.hook == K_START) got_s.push_back(e.node);
+    if (ok_i) {
+      // eligible for start: initialised and not rolled back by the time the start pass begins
+      std::set<int> elig;
+      for (const Ev &e : g_trace) { if (e.hook == K_START) break; if (e.hook == K_INIT && e.ok) elig.insert(e.node); else if (e.hook == K_CLEANUP) elig.erase(e.node); }
+      ok_s = expect_pass(0, false, elig, att_s, suc_s) || !g_spec[0].required;
+      up_pass(0, false, elig, up_s);
     }
-    if (sim::violation_count() == 0 && run_ms >= 40)
-      for (int n : up_s) if (g_ticks[(size_t)n] < 1) { sim::violation("C11/started-module-not-running", sim::fmt("module n%d started successfully and the framework ran for %ld ms, yet its 10 ms timer on the context's loop never fired", n, run_ms)); break; }
-    sim::probe("main_ran");
-  } else if (sim::violation_count() == 0) sim::probe(ok_i ? "main_start_failed" : "main_init_failed");
-  for (auto *t : g_timers) if (t) { sim::violation("C11/start-without-stop", "a started module's timer is still alive after shutdown"); break; }
+    if (sim::violation_count() == 0 && got_s != att_s) sim::violation("C11/start-set", sim::fmt("Main: onStart was attempted on %zu modules, expected %zu (initialise %s)", got_s.size(), att_s.size(), ok_i ? "succeeded" : "failed"));
+    (void)take; (void)init_end;
+    if (part == 2 && sim::violation_count() == 0 && started != (ok_i && ok_s)) sim::violation("C11/start-result", sim::fmt("Start() returned %d, the tree's initialise/start %s", (int)started, (ok_i && ok_s) ? "succeed" : "fail"));
+    if (sim::violation_count() == 0) {
+      O.check_reverse_order(0, "Main");
+      O.account(0, "Main");
+      O.expect_balanced_none("after the framework has shut down and destroyed the tree");
+    }
+    if (sim::violation_count() == 0 && ok_i && ok_s) {
+      // the tree ran.  Which thread serves which hook and whether the loop is still running during the final stop pass are
+      // not part of the property: counted, not judged.
+      for (const Ev &e : g_trace) {
+        if (e.hook == K_STOP && up_s.count(e.node)) sim::probe(e.loop_running ? "final_stop_inside_loop" : "final_stop_outside_loop");
+        if (e.tid != 0) sim::probe("hooks_off_the_calling_thread");
+      }
+      if (sim::violation_count() == 0 && run_ms >= 40)
+        for (int n : up_s) if (g_ticks[(size_t)n] < 1) { sim::violation("C11/started-module-not-running", sim::fmt("module n%d started successfully and the framework ran for %ld ms, yet its 10 ms timer on the context's loop never fired", n, run_ms)); break; }
+      sim::probe("main_ran");
+    } else if (sim::violation_count() == 0) sim::probe(ok_i ? "main_start_failed" : "main_init_failed");
+    for (auto *t : g_timers) if (t) { sim::violation("C11/start-without-stop", "a started module's timer is still alive after shutdown"); break; }
+  }
 }
 
 void execute(const sim::Plan &plan) {
